@@ -199,7 +199,7 @@ def opcode_sweeps(tab, chunk=24):
                 it = {"op": nme, "arg": None, "pre": 0, "to": None}
                 if kind == "jump":
                     it["arg"] = 0
-                    it["to"] = (2 * j + 3) if j % 2 == 0 else 0           # forward onto a later item / back to the start
+                    it["to"] = 3 * j + 2          # its own target: the second of the two pads that follow it
                 elif kind == "table":
                     it["arg"] = min(tab.table_limit(nme), 1 + j)
                 elif kind == "enum":
@@ -208,6 +208,7 @@ def opcode_sweeps(tab, chunk=24):
                     it["arg"] = 2 + j
                 items.append(it)
                 if kind == "jump" and pad in tab.opmap:
+                    items.append({"op": pad, "arg": None, "pre": 0, "to": None})
                     items.append({"op": pad, "arg": None, "pre": 0, "to": None})
             if items:
                 out.append(items)
